@@ -43,8 +43,24 @@ def make_case(seed, i, tier):
     return {"seed": seed, "scn": scn, "props": [PROP]}
 
 
+class ProbDeathMonitor(SS.Monitor):
+    """The main process dying inside the probability code yields no matrix at all: also a C02 violation."""
+
+    def on_died(self, exc):
+        import traceback
+        if "injected worker failure" in str(exc):
+            return
+        tb = traceback.extract_tb(exc.__traceback__)
+        names = [f.name for f in tb if "/infretis/" in f.filename]
+        hit = [n for n in names if n in ("prob", "inf_retis", "quick_prob", "permanent_prob", "random_prob",
+                                         "fast_glynn_perm", "glynn", "force_quick")]
+        if hit:
+            self.sim.violate("C02", "prob_raised", f"{type(exc).__name__}: {exc} in {hit[-1]} at {SS._short_tb(exc)}",
+                             site=hit[-1])
+
+
 def monitors(case, inc):
-    return [M.C02Monitor()]
+    return [M.C02Monitor(), ProbDeathMonitor()]
 
 
 def run(case):
